@@ -435,7 +435,8 @@ def parse_url(url: str) -> Url:
         else:
             port_int = None
 
-        host = _normalize_host(host, scheme)
+        # An empty host ("http://:80") is no host: Url.url would not render it.
+        host = _normalize_host(host, scheme) or None
 
         if normalize_uri and path:
             path = _remove_path_dot_segments(path)
